@@ -84,7 +84,7 @@ func (c07) Cases(tier string) int {
 }
 
 func (c07) Rule() string {
-	return "for fixed and generated queries over the fixed and random federations the calls of a fault-free run are listed as (service, join id); then fault assignments over those calls are applied: every single call x every outcome kind {transport error, error list, errors+partial data, errors with node:null, an error wrapping the deadline error of that one call, an error with an empty message, node:null, empty payload, wrong-shape payload}, every pair of calls, and random subsets; checked: no panic, no hang, no error when nothing was injected, every injected error message is in the returned list (as a multiset) and, with its message, in the HTTP response of the same request, a null/malformed payload yields at least one error, every value present in the data equals the monolith's at that position, and every call that was answered normally has its fields in the data at each object it joined onto; non-trivial = at least 2 calls and 1 fault; distinct = distinct (federation, query, fault assignment)"
+	return "for fixed and generated queries over the fixed and random federations the calls of a fault-free run are listed as (service, join id); then fault assignments over those calls are applied: every single call x every outcome kind {transport error, error list, errors+partial data, errors with node:null, an error wrapping the deadline error of that one call, an error with an empty message, node:null, empty payload, wrong-shape payload}, every pair of calls, and random subsets; checked: no panic, no hang, no error when nothing was injected, every injected error message is in the returned list (as a multiset) and, with its message, in the HTTP response of the same request, a null/malformed payload yields at least one error, every value present in the data equals the monolith's at that position, and every call that was answered normally has its fields in the data at each object it joined onto; non-trivial = at least 2 calls and 1 fault; distinct = distinct (federation, query, fault assignment); one generated case in six a net-twin case: a gateway in its default configuration, services answering some join ids with an errors member in JSON (error lists, errors with data, blank messages, errors with empty data) — the reported errors must be those over in-process queryers"
 }
 
 type callKey struct{ svc, id string }
@@ -188,6 +188,23 @@ func (c07) Run(c *Ctx, i int) CaseResult {
 	res := CaseResult{ID: fmt.Sprintf("gen:%d", i)}
 	if corpus {
 		res.ID = "corpus:" + c07Corpus[i].ID
+	}
+	if !corpus && i%6 == 4 {
+		// failures that travel as JSON: a gateway in its default configuration (the client library's network queryers over
+		// an in-process transport), a service answering some join ids with an "errors" member; the errors the gateway
+		// reports must be the ones it reports over in-process queryers
+		ids := []string{"u1", "u2", "u3"}
+		var faults []FaultSpec
+		for n := 1 + r.Intn(2); n > 0; n-- {
+			faults = append(faults, FaultSpec{Service: []string{"B", "C"}[r.Intn(2)], MatchID: ids[r.Intn(len(ids))], Kind: []string{"gqlerrors", "gqlerrors+data", "blank-error", "gqlerrors+empty"}[r.Intn(4)]})
+		}
+		tc := NetTwinCase{Query: []string{`{ allUsers { firstName lastName nick } }`, `{ me { firstName nick photos { likes } } allUsers { lastName } }`, `{ allUsers { nick photos { url likes } } }`}[r.Intn(3)],
+			StoreSeed: 5, ListLen: []int{0, 6}[r.Intn(2)], Faults: faults}
+		if nf := RunNetTwin(tc); len(nf) > 0 {
+			res.Nontrivial = true
+			res.Fails = nf
+			return res
+		}
 	}
 	corpusFaults := in.Faults
 	in.Faults = nil
